@@ -417,12 +417,12 @@ func runC16(r *Run) {
 		for i := 0; i < n; i++ {
 			op := kind.gen(rng, cfg)
 			hist = append(hist, trunc(op.desc, 400))
-			want, hungF := withWatchdog(6*time.Second, func() string { return op.run(kind.fresh()) })
+			want, hungF := withWatchdog(60*time.Second, func() string { return op.run(kind.fresh()) })
 			if hungF {
 				r.out.Finding("C16", "hang-fresh:"+kind.name, "a call on a FRESH instance does not return", strings.Join(hist, " || "))
 				break
 			}
-			got, hung := withWatchdog(6*time.Second, func() string { return op.run(inst) })
+			got, hung := withWatchdog(60*time.Second, func() string { return op.run(inst) })
 			r.out.Count("ops:" + kind.name)
 			if strings.HasPrefix(want, "ERR") || strings.HasPrefix(want, "PANIC") {
 				r.out.Count("ops-failing:" + kind.name)
